@@ -208,3 +208,41 @@ def run(ctx, report, clause, three_rows=False):
 
 def _show(rows):
     return [f"row {r} col {c}{' italic' if it else ''}{' +TO2' if to else ''}{' mid-row ' + m if m else ''}" for r, c, it, to, m in rows]
+
+
+def emptiness(ctx, report, clause):
+    """InstructionNodeCreator.is_empty() folded on buffers built by command sequences: a buffer is empty
+    exactly when no character was written into it (null padding and commands write nothing)."""
+    buf = Buffer(ctx)
+    ie = buf.inc.find_method("is_empty")
+    report.covered(ie)
+    alphabet = {"address row 2": ("cmd", buf.pac[((2, 0), False)]), "address row 3": ("cmd", buf.pac[((3, 0), False)]),
+                "null padding": ("chars", ("", "")), "text": ("chars", ("a", "b")), "blank": ("chars", (" ",)),
+                "italic mid-row code": ("cmd", buf.mid_on[0]), "plain mid-row code": ("cmd", buf.mid_off[0])}
+    cases = []
+    for k in range(0, 4):
+        for seq in itertools.product(sorted(alphabet), repeat=k):
+            wrote = any(alphabet[x][0] == "chars" and any(alphabet[x][1]) for x in seq)
+            cases.append((" . ".join(seq) or "fresh buffer", [alphabet[x] for x in seq], not wrote))
+    bad = []
+    for label, cmds, want in cases:
+        b = buf.new()
+        try:
+            for kind, arg in cmds:
+                if kind == "cmd":
+                    buf.F.call_function(buf.inc.find_method("interpret_command"), [arg], {}, self_value=b)
+                else:
+                    buf.F.call_function(buf.inc.find_method("add_chars"), list(arg), {}, self_value=b)
+            got = buf.F.call_function(ie, [], {}, self_value=b)
+        except FoldRaise as e:
+            bad.append({"buffer": label, "problem": f"raises {e}"})
+            continue
+        except AnalysisError as e:
+            raise AnalysisError(f"is_empty cannot be folded on '{label}': {e}")
+        if bool(got) != want:
+            bad.append({"buffer": label, "is_empty": got, "required": want})
+    bad = sorted(bad, key=lambda x: len(x["buffer"]))[:4]
+    report.check(not bad, "R-QUANTIFIER", ie, "a buffer is empty exactly when no character was written into it",
+                 {"buffers_folded": len(cases), "scope": "every command sequence up to length 3 over 7 commands", "mismatches": bad,
+                  "why": "a text-less buffer that is not 'empty' is stored as a caption (and breaks the reader later); a "
+                         "buffer with text that counts as empty is dropped"}, clause)
